@@ -856,12 +856,14 @@ def judge_world(ctx, recs, what, groups=None):
     byid = {r["id"]: r for r in ok}
     alone = {}
     if groups and rejects:
-        again = [run_world((rid, byid[rid]["w"])) for rid in sorted(rejects)[:40]]
+        tried = sorted(rejects)[:400]
+        again = pmap(run_world, [(rid, byid[rid]["w"]) for rid in tried])
         alone = _world_validate(ctx, [r for r in again if "outs" in r], what + " - rejected sessions alone")
+        ctx.traces -= len(again) - len(alone)        # the same sessions, not further accepted traces
     for rid, failing in rejects.items():
         r = byid[rid]
         case = {"kind": "world", "w": r["w"], "id": r["id"], "outs": r["outs"], "kinds": r["kinds"], "engine": r["engine"]}
-        if groups and rid not in alone:
+        if groups and rid not in alone:            # (or not tried alone: the group prefix reproduces it in any case)
             g = next(g for g in groups if any(i == rid for i, _ in g))
             case = {"kind": "world_group", "id": rid, "sessions": [[i, w] for i, w in g[:[i for i, _ in g].index(rid) + 1]]}
         for f in failing:
